@@ -6,13 +6,16 @@ Helper driver of C13 (no `main`): kind
 listeners whose sds tls contexts share / do not share certificate and validation secret names, under a history of
 operations joined by `|`:
   B<l>:<ctx>;<ctx>…   NewTLSServerContextManager for listener l (L = the probed one, O = another listener using the same
-                      secret names); ctx = `-` (a static context) | <cert x|y><val p|q><verify 0|1><require 0|1><server_name 0|a|b|c><alpn 0|h|t>
+                      secret names); ctx = `-` (a static context) | <cert x|y><val p|q|0 = NO validation secret: host root store><verify 0|1><require 0|1><server_name 0|a|b|c><alpn 0|h|t>
   W<cert><val>        a cluster's client manager using these secret names is built (its own index)
   V<val>              the sds server delivers the validation secret of that name
   K<cert><k>          the sds server delivers certificate number k under that certificate secret name
   D<sni><alpn>        GetConfigForClient of listener L directly   => <certificate id>.<ClientAuthType>.<NextProtos 0|h|t> | err
   H<sni><alpn>.<peer> a real handshake with listener L            => <certificate id>.<ok|fail>
 certificate id = d (static) | <cert name><k>.  sni: a|b|c|x|y|s|n|0; client alpn: 0|h|t|b (h2 + http/1.1).
+peer: none | self | other | right (the CA of the validation secrets) | sys (the CA that IS the process's root store) |
+expired | stolen; a peer is judged against the trust anchor of the context that answers: the validation secret's CA, or
+the root store for a context without validation secret (there `sys` is the right CA and `right` another CA).
 Which pem provider receives a delivery (a validation secret reaches every pem provider under that validation name that
 exists; a certificate reaches the pem provider that registered LAST for that certificate name; a secret is complete
 when both are there) is bookkeeping of this driver; the cache itself is `Model.TlsShare` (regenerated index / key /
@@ -27,6 +30,8 @@ def certNames : Name → Nat → Name × List Name := fun c _ => (c ++ dom, [c +
 def staticCtx : Ctx := ⟨true, "static".toList ++ dom, ["static".toList ++ dom], [], []⟩
 def statics : Nat → Ctx := fun _ => staticCtx
 def probed : Name := ['L']
+/-- the validation name of a context without validation secret (`systemValidation`) -/
+def system : Name := "system".toList
 
 structure St where
   ca : Cache LCfg
@@ -62,7 +67,7 @@ def ctx? (s : String) : Option (Option (SCtx LCfg)) :=
   | ['-'] => some none
   | [c, v, ver, req, sn, al] =>
     match bit? ver, bit? req, sname? sn, alpnCfg? al with
-    | some ver, some req, some sn, some al => some (some ⟨⟨ver, req, sn, al⟩, ⟨[v], [c]⟩⟩)
+    | some ver, some req, some sn, some al => some (some ⟨⟨ver, req, sn, al⟩, ⟨if v == '0' then system else [v], [c]⟩⟩)
     | _, _, _, _ => none
   | _ => none
 
@@ -74,8 +79,12 @@ def protos? (c : Char) : Option (List Name) :=
   if c == '0' then some [] else if c == 'h' then some ["h2".toList] else if c == 't' then some ["http/1.1".toList]
   else if c == 'b' then some ["h2".toList, "http/1.1".toList] else none
 
-def peer? : String → Option Peer
-  | "none" => some .none | "self" => some .selfSigned | "other" => some .otherCA | "right" => some .rightCA
+/-- the class of a peer certificate relative to the trust anchor of the answering context (`sysAnchor` = the root
+store: contexts without validation secret and the static context, which has no ca_cert) -/
+def peer? (sysAnchor : Bool) : String → Option Peer
+  | "none" => some .none | "self" => some .selfSigned | "other" => some .otherCA
+  | "right" => some (if sysAnchor then .otherCA else .rightCA)
+  | "sys" => some (if sysAnchor then .rightCA else .otherCA)
   | "expired" => some .expired | "stolen" => some .stolenKey | _ => none
 
 def alpnTok (cfg : Name) : String :=
@@ -87,16 +96,16 @@ def okfail (b : Bool) : String := if b then "ok" else "fail"
 
 /-- what the context at position i of the probed listener answers with: (certificate id, ClientAuthType, alpn token) -/
 def answer (cs : List (Option (SCtx LCfg))) (ctxOf : Nat → SCtx LCfg → Option (LCfg × Nat)) (auth : LCfg → Int) (i : Nat) :
-    Option (String × Int × String) :=
+    Option (String × Int × String × Bool) :=
   match cs[i]? with
-  | some none => some ("d", 0, "0")
+  | some none => some ("d", 0, "0", true)
   | some (some c) =>
     match ctxOf i c with
-    | some (cfg, k) => some (s!"{String.ofList c.ref.cert}{k}", auth cfg, alpnTok cfg.alpnCfg)
+    | some (cfg, k) => some (s!"{String.ofList c.ref.cert}{k}", auth cfg, alpnTok cfg.alpnCfg, c.ref.val == system)
     | none => none
   | none => none
 
-def modelAnswer (st : St) (sni : Name) (protos : List Name) : Option (String × Int × String) :=
+def modelAnswer (st : St) (sni : Name) (protos : List Name) : Option (String × Int × String × Bool) :=
   match st.latest.lookup probed with
   | none => none
   | some cs =>
@@ -107,7 +116,7 @@ def modelAnswer (st : St) (sni : Name) (protos : List Name) : Option (String × 
 def ownCtx (st : St) (c : SCtx LCfg) : Option (LCfg × Nat) :=
   (st.done.lookup (c.ref.val, c.ref.cert)).map (fun k => (c.cfg, k))
 
-def specAnswer (st : St) (sni : Name) (protos : List Name) : Option (String × Int × String) :=
+def specAnswer (st : St) (sni : Name) (protos : List Name) : Option (String × Int × String × Bool) :=
   match st.latest.lookup probed with
   | none => none
   | some cs =>
@@ -115,13 +124,13 @@ def specAnswer (st : St) (sni : Name) (protos : List Name) : Option (String × I
     | some i => answer cs (fun _ c => ownCtx st c) (fun cfg => specClientAuth cfg.require cfg.verify) i
     | none => none
 
-def showD : Option (String × Int × String) → String
-  | some (id, auth, al) => s!"{id}.{auth}.{al}"
+def showD : Option (String × Int × String × Bool) → String
+  | some (id, auth, al, _) => s!"{id}.{auth}.{al}"
   | none => "err"
 
-def showH (accepts : Int → Peer → Bool) (p : Peer) : Option (String × Int × String) → String
-  | some (id, auth, _) => s!"{id}.{okfail (accepts auth p)}"
-  | none => "err.fail"
+def showH (accepts : Int → Peer → Bool) (pk : String) : Option (String × Int × String × Bool) → Option String
+  | some (id, auth, _, sysAnchor) => (peer? sysAnchor pk).map (fun p => s!"{id}.{okfail (accepts auth p)}")
+  | none => (peer? false pk).map (fun _ => "err.fail")
 
 /-- the statement's trust table from the numeric ClientAuthType of `specClientAuth` -/
 def specAccepts (auth : Int) (p : Peer) : Bool :=
@@ -138,8 +147,9 @@ def stepOp (st : St) (t : String) : Option (St × Option (String × String)) :=
     | some cs => some (buildOp st l cs, none)
     | none => none
   | ['W', c, v] =>
-    let st := notePem st ([v], [c])
-    some ({ st with ca := apply st.ca (.cluster ['W', c, v] ⟨⟨false, false, [], []⟩, ⟨[v], [c]⟩⟩ true) }, none)
+    let vn := if v == '0' then system else [v]
+    let st := notePem st (vn, [c])
+    some ({ st with ca := apply st.ca (.cluster ['W', c, v] ⟨⟨false, false, [], []⟩, ⟨vn, [c]⟩⟩ true) }, none)
   | ['V', v] =>
     if st.pemList.any (fun pk => pk.1 == [v]) then
       let st := { st with valRoot := [v] :: st.valRoot }
@@ -150,7 +160,8 @@ def stepOp (st : St) (t : String) : Option (St × Option (String × String)) :=
     match (String.ofList ks).toNat?, st.owner.lookup [c] with
     | some k, some pk =>
       let st := { st with pemCert := setAssoc st.pemCert pk k }
-      some (if st.valRoot.contains pk.1 then completeAt st pk k else st, none)
+      -- a pem provider without validation secret (`expectedEmpty`) is complete with its certificate
+      some (if pk.1 == system || st.valRoot.contains pk.1 then completeAt st pk k else st, none)
     | some _, none => some (st, none)
     | none, _ => none
   | ['D', s, a] =>
@@ -158,10 +169,12 @@ def stepOp (st : St) (t : String) : Option (St × Option (String × String)) :=
     | some sni, some protos => some (st, some (showD (modelAnswer st sni protos), showD (specAnswer st sni protos)))
     | _, _ => none
   | 'H' :: s :: a :: '.' :: pk =>
-    match sni? s, protos? a, peer? (String.ofList pk) with
-    | some sni, some protos, some p =>
-      some (st, some (showH serverAccepts p (modelAnswer st sni protos), showH specAccepts p (specAnswer st sni protos)))
-    | _, _, _ => none
+    match sni? s, protos? a with
+    | some sni, some protos =>
+      match showH serverAccepts (String.ofList pk) (modelAnswer st sni protos), showH specAccepts (String.ofList pk) (specAnswer st sni protos) with
+      | some x, some y => some (st, some (x, y))
+      | _, _ => none
+    | _, _ => none
   | _ => none
 
 def walk : List String → St → List String → List String → Option (List String × List String)
